@@ -222,6 +222,12 @@ pub struct SinkStats {
 
 pub struct SinkState {
     pub data: Vec<u8>,
+    /// bytes accepted so far (== data.len() unless the sink discards or spills)
+    pub stored: usize,
+    /// false: count only (C15: the harness must not hold the stream on the heap)
+    pub keep: bool,
+    /// write the accepted bytes to this file instead of `data`
+    pub spill: Option<std::fs::File>,
     sched: SchedState,
     /// the device dies once this many bytes are stored (None: never)
     pub die_at: Option<usize>,
@@ -242,6 +248,9 @@ impl SimSink {
     pub fn new(sched: &Sched) -> Self {
         SimSink(Rc::new(RefCell::new(SinkState {
             data: Vec::new(),
+            stored: 0,
+            keep: true,
+            spill: None,
             sched: SchedState::new(sched),
             die_at: None,
             fail_from_call: None,
@@ -259,7 +268,17 @@ impl SimSink {
         self.0.borrow().data.clone()
     }
     pub fn len(&self) -> usize {
-        self.0.borrow().data.len()
+        self.0.borrow().stored
+    }
+    /// counting sink: nothing is retained; with a path the bytes go to that file
+    pub fn counting(sched: &Sched, spill: Option<&std::path::Path>) -> Self {
+        let s = Self::new(sched);
+        {
+            let mut st = s.0.borrow_mut();
+            st.keep = false;
+            st.spill = spill.map(|p| std::fs::File::create(p).expect("spill file"));
+        }
+        s
     }
     pub fn stats(&self) -> SinkStats {
         self.0.borrow().stats.clone()
@@ -295,7 +314,7 @@ impl Write for SimSink {
             Xfer::Move(n) => n.min(buf.len()),
         };
         if let Some(d) = s.die_at {
-            let room = d.saturating_sub(s.data.len());
+            let room = d.saturating_sub(s.stored);
             if room == 0 {
                 s.stats.dead_errors += 1;
                 fired("sink_dead");
@@ -312,7 +331,12 @@ impl Write for SimSink {
             s.stats.short_writes += 1;
             fired("sink_short_write");
         }
-        s.data.extend_from_slice(&buf[..n]);
+        if s.keep {
+            s.data.extend_from_slice(&buf[..n]);
+        } else if let Some(f) = s.spill.as_mut() {
+            f.write_all(&buf[..n])?;
+        }
+        s.stored += n;
         log_seam(b'w', buf.len() as u64, n as u64);
         Ok(n)
     }
@@ -325,11 +349,11 @@ impl Write for SimSink {
             return Err(io::Error::other("sim: flush failed"));
         }
         if let Some(d) = s.die_at {
-            if s.data.len() >= d {
+            if s.stored >= d {
                 return Err(io::Error::other("sim: device gone"));
             }
         }
-        let l = s.data.len();
+        let l = s.stored;
         s.flush_marks.push(l);
         log_seam(b'f', 0, l as u64);
         Ok(())
@@ -351,6 +375,8 @@ pub struct SrcStats {
 /// an optional injected error at the k-th read.
 pub struct SimSource {
     image: Rc<Vec<u8>>,
+    /// when set, the bytes come from this file (C15 spill file) instead of `image`
+    file: Option<(std::fs::File, u64)>,
     pos: u64,
     sched: SchedState,
     /// sticky error once this many calls were made
@@ -364,12 +390,23 @@ impl SimSource {
     pub fn new(image: Rc<Vec<u8>>, sched: &Sched, budget: u64) -> Self {
         SimSource {
             image,
+            file: None,
             pos: 0,
             sched: SchedState::new(sched),
             budget,
             error_at_read: None,
             stats: Rc::new(RefCell::new(SrcStats::default())),
         }
+    }
+    pub fn from_file(path: &str, sched: &Sched, budget: u64) -> io::Result<Self> {
+        let f = std::fs::File::open(path)?;
+        let len = f.metadata()?.len();
+        let mut s = Self::new(Rc::new(Vec::new()), sched, budget);
+        s.file = Some((f, len));
+        Ok(s)
+    }
+    fn total_len(&self) -> u64 {
+        self.file.as_ref().map(|f| f.1).unwrap_or(self.image.len() as u64)
     }
     pub fn stats_handle(&self) -> Rc<RefCell<SrcStats>> {
         self.stats.clone()
@@ -399,8 +436,8 @@ impl Read for SimSource {
             log_seam(b'E', buf.len() as u64, 0);
             return Err(io::Error::other("sim: source error"));
         }
-        let len = self.image.len() as u64;
-        let avail = len.saturating_sub(self.pos) as usize;
+        let len = self.total_len();
+        let avail = len.saturating_sub(self.pos).min(usize::MAX as u64) as usize;
         let want = buf.len().min(avail);
         if want == 0 {
             log_seam(b'r', buf.len() as u64, 0);
@@ -414,8 +451,14 @@ impl Read for SimSource {
             self.stats.borrow_mut().short_reads += 1;
             fired("source_short_read");
         }
-        let p = self.pos as usize;
-        buf[..n].copy_from_slice(&self.image[p..p + n]);
+        if let Some((f, _)) = self.file.as_mut() {
+            use std::io::{Seek as _, SeekFrom as SF};
+            f.seek(SF::Start(self.pos))?;
+            f.read_exact(&mut buf[..n])?;
+        } else {
+            let p = self.pos as usize;
+            buf[..n].copy_from_slice(&self.image[p..p + n]);
+        }
         self.pos += n as u64;
         log_seam(b'r', buf.len() as u64, n as u64);
         Ok(n)
@@ -426,7 +469,7 @@ impl Seek for SimSource {
     fn seek(&mut self, pos: SeekFrom) -> io::Result<u64> {
         self.tick()?;
         self.stats.borrow_mut().seeks += 1;
-        let len = self.image.len() as i128;
+        let len = self.total_len() as i128;
         let target: i128 = match pos {
             SeekFrom::Start(p) => i128::from(p),
             SeekFrom::Current(d) => i128::from(self.pos) + i128::from(d),
